@@ -5,10 +5,13 @@ PROP = dict(
     module="FV.C02.Props",
     coq_targets=["theories/C02/Check.vo", "theories/C02/Search.vo", "theories/C02/Props.vo"],
     theorems=["task_graph_safe_in_all_schedules", "bookkeeping_exact", "launch_guarantees",
-              "completion_delivery_never_panics", "never_unable_to_proceed"],
+              "completion_delivery_never_panics", "never_unable_to_proceed",
+              "no_scheduler_panic_in_any_schedule", "valid_source_never_fails"],
     prelude="From Coq Require Import List NArith Bool.\nFrom FV.Base Require Import Harness.\nFrom FV.C02 Require Import Model Check Search.",
     found_in_show=lambda shows: any("Launch" in x for x in shows),
-    correspondence_key=lambda shows: "unable-to-proceed" if any("Stuck" in x and "Unordered" not in x for x in shows)
+    correspondence_key=lambda shows: "unordered-conflicting-access" if any("Unordered" in x for x in shows)
+                                     else "unable-to-proceed" if any("Stuck" in x for x in shows)
+                                     else "scheduler-panic-reachable" if any("Panics" in x for x in shows)
                                      else "unordered-conflicting-access",
     harness_args=lambda tier, seed: ["--seed", str(seed), "--n", str(N[tier]), "--corpus", str(CORPUS[tier])],
     shard=6,
@@ -17,7 +20,7 @@ PROP = dict(
          "masters, features skipped); one case = one compile with hooks on: the recorded job graph, event history and "
          "every pair of jobs touching a common context item. Non-trivial = graph has dynamically added jobs or > 60 ids; "
          "distinct = distinct source.",
-    trusted_base=["Coq 8.16.1 kernel (coqc; vm_compute evaluates replay_ok, safe_graph and live_graph on each instance)",
+    trusted_base=["Coq 8.16.1 kernel (coqc; vm_compute evaluates replay_ok, safe_graph, live_graph and calm_graph on each instance)",
                   "hand-written scheduler model FV.C02.Model; each run's job graph instance is regenerated from the "
                   "running code through the cfg(fontc_verif) hooks and its recorded history is replayed through the model",
                   "Rust harness /verif/harness (c02), hooks in fontc/src/workload.rs and fontdrasil/src/orchestration.rs"],
@@ -39,15 +42,17 @@ MANIFEST = dict(
          "delivery asymmetry behind issues 647/655/1436; and soundness of the decidable condition live_graph: if it "
          "accepts a graph (certificate: a rank under which every dependency, creator and gate-opening handler of a job "
          "ranks below it) then in EVERY schedule, unless the build is finished, a job is running or launchable - "
-         "Error::UnableToProceed is unreachable. On every run the job graph instance is regenerated from the "
+         "Error::UnableToProceed is unreachable; and of calm_graph: if it accepts a graph then NO schedule reaches a "
+         "panic state (completed-twice / not-pending, and the handlers' 'has to be pending' expects). Together "
+         "(valid_source_never_fails) they give the property with no side condition on the run. On every run the job graph instance is regenerated from the "
          "running code (hooks), the recorded history is replayed through the model (every real launch must be enabled "
          "in the model), every pair of jobs touching a common context item (one writing) is extracted from the ACL log, "
-         "and safe_graph and live_graph (rank = recorded launch order) are evaluated on it in Coq; when one rejects the "
-         "graph the model is searched for a schedule that starts a reader early / gets stuck; overlapping conflicting accesses observed directly are reported with "
+         "and safe_graph, live_graph (rank = recorded launch order) and calm_graph are evaluated on it in Coq; when one "
+         "rejects the graph the model is searched for a schedule that starts a reader early / gets stuck / panics; overlapping conflicting accesses observed directly are reported with "
          "the source as replay.",
     note="Trusted: Coq kernel + vm_compute; hand-written scheduler model and its tie (hooks + replay); read/write sets are "
          "those observed in the recorded run; rayon/crossbeam abstracted to arbitrary interleaving, atomics SC. "
-         "Proved: delivering a completion never hits the completed-twice / not-pending panics; progress (UnableToProceed "
-         "unreachable) for every schedule of a graph accepted by live_graph. Not proved: absence of the handlers' "
-         "'has to be pending' expect-panics for all schedules - checked on every recorded run only. No axioms.",
+         "Proved for every schedule of a graph accepted by the decidable conditions: no panic state (complete_one panics and "
+         "the handlers' 'has to be pending' expects), progress (UnableToProceed unreachable), ordering of every listed "
+         "pair. Not modelled: panics inside a job's own work (front-end / back-end code run by the workers). No axioms.",
 )
